@@ -48,7 +48,12 @@ def ccell(x):
     if c in ('NaN', 'NaT'):
         return 'NaN'
     if isinstance(c, tuple) and c[0] in ('int', 'float', 'bool'):
-        return ('num', float(c[1]))
+        import fractions
+        import math
+        v = c[1]
+        if isinstance(v, float) and not math.isfinite(v):
+            return ('num', v)
+        return ('num', fractions.Fraction(v))      # exact: an int64 beyond 2**53 and the float64 next to it are different cells
     return c
 
 
@@ -261,7 +266,7 @@ def eval_pivot_case(rep, case, tier):
 
 def stack_cases(tier):
     # (column label set id, index depth, rows, depth levels to move)
-    for cset in range(6):
+    for cset in range(7):
         for idepth in (1, 2):
             for r in (1, 2, 3):
                 yield ('K', cset, idepth, r)
@@ -274,6 +279,7 @@ STACK_COLS = [
     (2, [('B', 'x'), ('A', 'y'), ('A', 'x'), ('C', 'z')]),
     (3, [('A', 1, 'p'), ('A', 1, 'q'), ('B', 2, 'p')]),
     (2, [('A', 1), ('B', 2)]),
+    (2, [('id', 'open'), ('id', 'close'), ('px', 'open'), ('px', 'close')]),
 ]
 
 
@@ -282,11 +288,12 @@ def eval_stack_case(rep, case, tier):
     _, cset, idepth, r = case
     cdepth, clabels = STACK_COLS[cset]
     m = len(clabels)
-    kinds = ['i', 'f', 'i', 'U'][:m] if cset != 3 else ['i', 'i', 'f', 'f']
+    kinds = ['i', 'f', 'i', 'U'][:m] if cset not in (3, 6) else ['i', 'i', 'f', 'f']
     cols = []
     for j, k in enumerate(kinds):
         if k == 'i':
-            cols.append(np.arange(r, dtype=np.int64) * 10 + j + 1)
+            # (column set 6 holds 64-bit ids a float64 cannot represent, next to float columns; only the level that keeps ints and floats in separate stacked columns is moved)
+            cols.append(np.arange(r, dtype=np.int64) * 10 + j + 1 + (2 ** 60 + 1 if cset == 6 else 0))
         elif k == 'f':
             cols.append(np.arange(r, dtype=np.float64) / 2 + j + 0.25)
         else:
@@ -295,6 +302,8 @@ def eval_stack_case(rep, case, tier):
     index = sf.IndexHierarchy.from_labels(ilabels) if idepth == 2 else sf.Index(ilabels)
     columns = sf.IndexHierarchy.from_labels(clabels) if cdepth > 1 else sf.Index([c[0] for c in clabels])
     levels = [0] if cdepth == 1 else ([0, 1, [0, 1]] if cdepth == 2 else [0, 2, [0, 1], [1, 2], [0, 1, 2]])
+    if cset == 6:
+        levels = [1]
     fills = {'nan': float('nan'), 'zero': 0, 'dash': '-'}
     for lay in pick_layouts(cols, tier):
         f = frame_from(cols, lay, index=index, column_labels=columns)
@@ -322,7 +331,12 @@ def eval_stack_case(rep, case, tier):
                 missing = [k for k in expected if k not in got]
                 if not rep.check(not missing, f'{PID}:stack-unstack:cell-lost', f'{desc}: original cells without a counterpart {missing[:3]} (result columns {gcl})', rp):
                     continue
-                bad = [(k, got[k], expected[k]) for k in expected if got[k] != expected[k]]
+                def _same(a, b):
+                    if a == b:
+                        return True
+                    # a NaN fill value turns an integer column into float64 (NumPy promotion, the recorded C07 finding): integers beyond 2**53 are then compared as floats
+                    return fillname == 'nan' and isinstance(a, tuple) and isinstance(b, tuple) and a[0] == b[0] == 'num' and float(a[1]) == float(b[1])
+                bad = [(k, got[k], expected[k]) for k in expected if not _same(got[k], expected[k])]
                 rep.check(not bad, f'{PID}:stack-unstack:cell-changed', f'{desc}: (position, got, original) {bad[:3]}', rp)
                 extra = [(k, x) for k, x in got.items() if k not in expected and x != ccell(fill)]
                 rep.check(not extra, f'{PID}:stack-unstack:non-fill-cell-invented', f'{desc}: cells that do not stem from the original and are not the fill value {extra[:3]}', rp)
